@@ -538,14 +538,6 @@ theorem skipToImpl_nohang_ge {p : P} (s : List Char) (acts : Bool) (x : Nat) (in
 
 /-! ### `parseImpl`, `_parseNoCache` -/
 
-/-- `And`'s test for `_ErrorStop` operands, as `parseImpl` passes it -/
-def stopFn (g : Grammar) : Nat → Bool := fun i =>
-  match g[i]? with
-  | some n => (match n.kind with
-    | .errorStop => true
-    | _ => false)
-  | none => false
-
 /-- what one node needs of the recursive call when it is entered at a location `≥ L` -/
 structure NodeOkGe (p : P) (g : Grammar) (nd : Node) (slen L : Nat) : Prop where
   ign : ∀ e ∈ nd.ignore, NHge p e L ∧ IgnAdv p e
